@@ -13,10 +13,25 @@ where
 {
     buf.resize(BGZF_HEADER_SIZE, 0);
 
-    match reader.read_exact(buf) {
-        Ok(()) => {}
-        Err(ref e) if e.kind() == io::ErrorKind::UnexpectedEof => return Ok(None),
-        Err(e) => return Err(e),
+    // EOF is only valid at a block boundary. A partially read header is a truncated stream.
+    let mut len = 0;
+
+    while len < buf.len() {
+        match reader.read(&mut buf[len..]) {
+            Ok(0) => break,
+            Ok(n) => len += n,
+            Err(ref e) if e.kind() == io::ErrorKind::Interrupted => {}
+            Err(e) => return Err(e),
+        }
+    }
+
+    if len == 0 {
+        return Ok(None);
+    } else if len < buf.len() {
+        return Err(io::Error::new(
+            io::ErrorKind::UnexpectedEof,
+            "truncated BGZF block header",
+        ));
     }
 
     // SAFETY: `buf.len() == BGZF_HEADER_SIZE >= mem::size_of::<u16>()`.
